@@ -29,6 +29,10 @@ def run(rep, tier, seed, replay_file=None):
     sim = pc.gen(rep, "Ctl_c01_sim.cfg", "random schedules n <= 8, k <= 4", simulate=dict(num=150 if quick else 2500),
                  depth=30, seed=seed)
     behs = replay.dedupe(behs + sim + free)
+    # a contended burst is a race the hardware decides: those schedules get the race driver (own process, a hit is
+    # re-run with more repetitions before it is reported)
+    bursts = [b for b in behs if pc.contended(b)]
+    behs = [b for b in behs if not pc.contended(b)]
     races = pc.gen(rep, "Ctl_c01_race.cfg" if quick else "Ctl_c01_race_full.cfg",
                    "undisturbed runs whose advances are concurrent from the very first one, one configuration per construct")
     races = [b for b in races if b["steps"][0]["op"] == "race-start"]
@@ -39,6 +43,9 @@ def run(rep, tier, seed, replay_file=None):
     replay.replay(rep, binary, ["replay"], behs, shards=6 if quick else 8, env_extra=env, label="pipeline",
                   nontrivial=pc.nontrivial, timeout=1200)
     pc.replay_races(rep, binary, races, par=4 if quick else 6, env={"GOMAXPROCS": "8"}, label="pipeline/concurrent-start")
+    if bursts:
+        pc.replay_races(rep, binary, bursts, par=6, env={"GOMAXPROCS": "4"}, label="pipeline/contended-burst",
+                        retry_env={"VH_BURST_REPS": "200"})
     held = [b for b in behs if any(s["op"] == "rel" for s in b["steps"]) and b["cfg"]["n"] >= 2]
     if held:
         rep.sample(dict(kind="replayed schedule (user functions released one by one)", behaviour=held[len(held) // 2]))
@@ -47,7 +54,7 @@ def run(rep, tier, seed, replay_file=None):
     rep.cov["rule"] = (
         "behaviours = driver schedules of PipelineCtl without stop actions (one per terminal edge of the abstract graph; "
         "thorough: all of <= Depth steps for n<=3,k<=2; random n<=8,k<=4; free-running n<=24,k<=6; RaceReps repetitions per construct of a run whose first advances are concurrent) for map, pp, pfe, worker, "
-        "pbuf, split, buffer, merge, gen, multiread; after every step the real construct runs to quiescence and the "
+        "pbuf, pbufg (the body of ParallelBuffer with a gate in front of the send), split, buffer, merge, gen, multiread, with single and burst releases of the user functions; after every step the real construct runs to quiescence and the "
         "observations are compared with the spec's allowed sets: every user-function call is for an input item not seen "
         "before, every output is f(input item) not output before and allowed (may), the end of an output only when "
         "allowed (eofs), no consumer blocked with nothing held (must), at the end output bag = f(input bag), input order "
